@@ -43,6 +43,14 @@ def selftest_block():
     rows.append("")
     rows.append("Neutral (behaviour-preserving) edits that must stay silent: " + ", ".join(
         "`%s`" % os.path.basename(f)[:-5] for f in sorted(glob.glob(os.path.join(V, "selftest/neutral/*.diff")))))
+    rows.append("")
+    rows.append("Behaviour-preserving refactorings written by independent sub-agents (`selftest/neutral_agents/`, all must stay silent):")
+    rows.append("")
+    rows.append("| refactoring | code of property | what was restructured |")
+    rows.append("|---|---|---|")
+    for f in sorted(glob.glob(os.path.join(V, "selftest/neutral_agents/*.json"))):
+        m = json.load(open(f))
+        rows.append("| %s | %s | %s |" % (os.path.basename(f)[:-5], m.get("given_property"), (m.get("summary") or "")[:330].replace("|", "\\|").replace("\n", " ")))
     return "\n".join(rows)
 
 def main():
